@@ -99,9 +99,29 @@ def run_case(case, sets=None):
         i = case["only"]
         Rs, ps, tags = [Rs[i]], [ps[i]], [tags[i]]
     t, ts = build(Rs, ps, case["ctor"], case["reads"])
-    t.project(Plane(plane))
-    v = common.views(t)
     out = []
+    if case.get("before") == "rejected":
+        # calls that evo rejects (not a plane) project nothing - the object
+        # has not been projected afterwards
+        snap0 = common.snapshot(t)
+        for bad in ("xy", None, 2, plane.upper()):
+            try:
+                t.project(bad)
+                return [("project(%r) was accepted" % (bad, ),
+                         {"kind": "bad-plane-accepted"}, None)]
+            except Exception:
+                pass
+        if common.snapshot(t) != snap0:
+            out.append(("a rejected project() call changed the trajectory",
+                        {"kind": "rejected-call-changed"}, None))
+    try:
+        t.project(Plane(plane))
+    except TrajectoryException as e:
+        return [("the first projection was refused (%s)%s" %
+                 (e, " after rejected calls with an invalid plane argument"
+                  if case.get("before") else ""),
+                 {"kind": "first-projection-refused"}, None)]
+    v = common.views(t)
     n = len(ps)
     if not (v["n"] == n == len(v["xyz"]) == len(v["quat"]) == len(v["poses"])
             == len(v["stamps"])):
@@ -234,6 +254,59 @@ def shard_cases(cases):
     return acc
 
 
+def run_metric_case(case):
+    """ape()/rpe() with project_to_plane: both stored trajectories lie in the
+    plane - also when reference and estimate are two objects with equal data
+    ("eq"); (passing the very same object twice means projecting it twice,
+    which the property wants refused)"""
+    from evo import main_ape, main_rpe
+    from evo.core import metrics
+    from evo.core.trajectory import Plane
+    from evo.core.units import Unit
+    plane, nd = case["plane"], PLANES[case["plane"]]
+    Rs, ps, _ = hard_set(case.get("seed", 0))
+    Rs, ps = Rs[::9], ps[::9]
+    ref, _ = build(Rs, ps, case["ctor"], [])
+    if case["est"] == "eq":
+        est, _ = build(Rs, ps, case["ctor"], [])
+    else:
+        est, _ = build(Rs[::-1], ps, case["ctor"], [])
+    rel = metrics.PoseRelation.full_transformation
+    if case["tool"] == "ape":
+        r = main_ape.ape(ref, est, rel, project_to_plane=Plane(plane),
+                         ref_name="R", est_name="E")
+    else:
+        r = main_rpe.rpe(ref, est, rel, 1, Unit.frames,
+                         project_to_plane=Plane(plane), ref_name="R",
+                         est_name="E")
+    out = []
+    for name in ("R", "E"):
+        v = common.views(r.trajectories[name])
+        if any(M[nd, 3] != 0.0 for M in v["poses"]):
+            out.append("%s(project_to_plane=%s): stored trajectory %s is not "
+                       "in the plane" % (case["tool"], plane, name))
+    err = np.array(r.np_arrays["error_array"])
+    if case["est"] == "eq" and err.size and np.abs(err).max() > 1e-9:
+        out.append("%s(project_to_plane=%s) of equal trajectories is not "
+                   "zero (max %.3g)" % (case["tool"], plane,
+                                        np.abs(err).max()))
+    return out
+
+
+def shard_metric(cases):
+    acc = Acc()
+    for case in cases:
+        msgs = run_metric_case(case)
+        acc.count("evaluations")
+        acc.count("transitions")
+        acc.count("nontrivial")
+        acc.outcome("metric/%s/%s" % (case["tool"], case["est"]))
+        if msgs:
+            acc.violation("metric", "%s: %s" % (case, "; ".join(msgs)), case,
+                          {"kind": "metric-projection"})
+    return acc
+
+
 def run(ctx):
     cases = []
     for plane in PLANES:
@@ -255,7 +328,19 @@ def run(ctx):
     for plane, other in (("xy", "xz"), ("xz", "yz"), ("yz", "xy")):
         cases.append({"set": "planar", "plane": plane, "planar_plane": other,
                       "ctor": "quat", "reads": []})
+    # pose matrices held as one (n, 4, 4) array instead of a list
+    for plane in PLANES:
+        for setname in ("hard", "planar"):
+            cases.append({"set": setname, "plane": plane, "ctor": "arr",
+                          "reads": [], "seed": ctx.seed})
+    # ... and after project() calls that were rejected for their argument
+    cases += [dict(c, before="rejected") for c in cases
+              if c["set"] in ("hard", "euler-inplane")]
     acc = pmap_acc(ctx, __name__, "shard_cases", [[c] for c in cases])
+    acc.merge(pmap_acc(ctx, __name__, "shard_metric", [[
+        {"plane": plane, "ctor": ctor, "tool": tool, "est": est,
+         "seed": ctx.seed}] for plane in PLANES for ctor in ("se3", "quat")
+        for tool in ("ape", "rpe") for est in ("other", "eq")]))
     acc.counters["states"] = acc.counters["evaluations"]
     acc.rule = (
         "3 planes x {planar poses: %d headings (1-degree grid over (-180,180] "
@@ -275,4 +360,6 @@ def run(ctx):
 
 
 def replay(part, case):
+    if part == "metric":
+        return run_metric_case(case)
     return [m for m, cls, k in run_case(case)]
